@@ -59,7 +59,11 @@ class LKJPrior(LKJCholeskyFactorPrior):
         if not _is_valid_correlation_matrix(X):
             raise ValueError("Input is not a valid correlation matrix")
         X_cholesky = psd_safe_cholesky(X, upper=False)
-        return super().log_prob(X_cholesky)
+        # LKJCholesky is a density over Cholesky factors L: it contains the Jacobian prod_{i>=2} L_ii^(n-i) of
+        # L -> L L^T. Dividing it out leaves the documented density c(n, eta) |Sigma|^(eta - 1) over Sigma.
+        diag = X_cholesky.diagonal(dim1=-1, dim2=-2)[..., 1:]
+        order = self.n - torch.arange(2, self.n + 1, device=diag.device, dtype=diag.dtype)
+        return super().log_prob(X_cholesky) - (order * diag.log()).sum(-1)
 
     def sample(self, sample_shape=torch.Size()):
         R = super().sample(sample_shape=sample_shape)
